@@ -155,12 +155,13 @@ ReachFrom(T, front) ==
 Reachable(T) == ReachFrom(T, {1})
 
 LayersExact(T) ==
+  LET R == Reachable(T) IN
   /\ Len(T.layers) = T.pdepth + 1
   /\ \A h \in 0 .. T.pdepth :
        /\ T.layers[h + 1] # <<>>                                      \* reported depth = deepest non-empty level
-       /\ \A i, j \in DOMAIN T.layers[h + 1] : i # j => T.layers[h + 1][i] # T.layers[h + 1][j]
-       /\ SeqRange(T.layers[h + 1]) = {c \in Reachable(T) : T.dep[c] = h}
-  /\ \A c \in Reachable(T) : T.dep[c] <= T.pdepth
+       /\ Cardinality(SeqRange(T.layers[h + 1])) = Len(T.layers[h + 1])   \* each cell once
+       /\ SeqRange(T.layers[h + 1]) = {c \in R : T.dep[c] = h}
+  /\ \A c \in R : T.dep[c] <= T.pdepth
 
 LabelsOK(P, T) ==
   /\ T.dep[1] = 0 /\ T.idx[1] = <<>>
@@ -169,11 +170,16 @@ LabelsOK(P, T) ==
         /\ \A j \in DOMAIN T.kids[c] :
              /\ T.dep[T.kids[c][j]] = T.dep[c] + 1
              /\ T.idx[T.kids[c][j]] = Append(T.idx[c], j - 1)          \* K(i-1)+j, in child-list order
-  /\ \A c, d \in Reachable(T) : (c # d /\ T.dep[c] = T.dep[d]) => T.idx[c] # T.idx[d]
+  /\ \A h \in 0 .. T.pdepth :                                        \* (depth, index) labels unique within a depth
+        LET L == {c \in Cells(T) : T.dep[c] = h} IN Cardinality({T.idx[c] : c \in L}) = Cardinality(L)
+
+\* cheap form of NoSharedChildren: with ParentChildMutual (every listed child points back to the
+\* lister) a cell in two child lists would have two parents, so only repetition inside one list is left
+NoRepeatedChild(T) == \A c \in Cells(T) : Cardinality(SeqRange(T.kids[c])) = Len(T.kids[c])
 
 StructOK(P, T) ==
   /\ ParentChildMutual(T)
-  /\ NoSharedChildren(T)
+  /\ NoRepeatedChild(T)                \* with the line above: NoSharedChildren(T)
   /\ Reachable(T) = Cells(T)           \* nothing is ever orphaned
   /\ LayersExact(T)
   /\ LabelsOK(P, T)
